@@ -200,10 +200,14 @@ def run_roundtrip(case, env):
     law_roundtrip(args, sq, x["qcs"], x["seps"], case["lead"], case["trail"],
                   x["bare"])
     qchars = qchars_of(sq)
-    if any(interesting_arg(a, qchars) for a in args):
-        if any(a == "" for a in args):
-            return ok("empty-arg")
+    bs = any(a != "" and interesting_arg(a, qchars) for a in args)
+    empty = any(a == "" for a in args)
+    if bs and empty:
+        return ok("backslash-next-to-quote-or-at-end+empty-arg")
+    if bs:
         return ok("backslash-next-to-quote-or-at-end")
+    if empty:
+        return ok("empty-arg")
     return trivial()
 
 
@@ -298,7 +302,8 @@ def run_arg_block(case, env):
 # ---------------------------------------------------------------- generators
 
 _ALPHABET = "abé \t\"'" + BS
-_TEXT = st.text(alphabet=st.sampled_from(_ALPHABET + BS + "\""), max_size=10)
+_WEIGHTED = _ALPHABET + BS * 3 + "\"\"'"
+_TEXT = st.text(alphabet=st.sampled_from(_WEIGHTED), max_size=10)
 _SEPS = [" ", " ", "  ", "   "]
 
 
@@ -324,8 +329,7 @@ gen_roundtrip = st.fixed_dictionaries({
 })
 
 gen_line = st.fixed_dictionaries({
-    "line": st.text(alphabet=st.sampled_from(_ALPHABET + BS + "\""),
-                    max_size=14),
+    "line": st.text(alphabet=st.sampled_from(_WEIGHTED), max_size=14),
     "sq": st.booleans(),
 })
 
@@ -337,7 +341,7 @@ def kinds(tier):
         Kind("enum-args", run_arg_block, enumerate=enum_arg_blocks,
              exhaustive=True, hash_cases=False),
         Kind("roundtrip", run_roundtrip, strategy=gen_roundtrip,
-             examples={"quick": 20000, "thorough": 3000000}),
+             examples={"quick": 20000, "thorough": 1500000}),
         Kind("arbitrary", run_arbitrary, strategy=gen_line,
-             examples={"quick": 15000, "thorough": 2000000}),
+             examples={"quick": 15000, "thorough": 1000000}),
     ]
